@@ -448,9 +448,27 @@ def concrete_run(shape, values, seed=0):
     except Exception as e:
         tb = traceback.format_exc(limit=6)
         err = f"{type(e).__name__}: {e}\n{tb}"
+        # an AttributeError / ImportError / NameError raised by the verification code itself means the harness relies on an
+        # internal name that no longer exists (a refactor) - a harness error; any other exception while processing what the
+        # code under test returned is attributed to the code under test
+        env.error_origin = _exception_origin(e) if isinstance(e, (AttributeError, ImportError, NameError)) else "repo"
     finally:
         refsem.EXACT = True
     return env, err
+
+
+def _exception_origin(e):
+    """'repo' if the exception was raised by (or underneath) code of the repository under test, 'harness' if it was
+    raised by the verification code itself (e.g. an attribute the harness relies on was renamed): innermost frame that
+    belongs to either tree decides."""
+    here = os.path.dirname(os.path.dirname(os.path.abspath(__file__)))
+    for fr in reversed(traceback.extract_tb(e.__traceback__)):
+        fn = os.path.abspath(fr.filename)
+        if fn.startswith(REPO + os.sep):
+            return "repo"
+        if fn.startswith(here + os.sep):
+            return "harness"
+    return "harness"
 
 
 def run_shape(shape, tier="quick", seed=0):
@@ -604,6 +622,10 @@ def _replay(shape, rec, cands, label, pcs_desc, quiet=False):
             continue
         tried += 1
         if err:
+            if getattr(env, "error_origin", "repo") == "harness":
+                # the verification code itself failed (not the code under test): a harness error, never a violation
+                rec["harness_errors"].append(f"harness raised during replay of '{label}': {err[:1200]}")
+                return False
             rec["violations"].append(dict(shape=shape.name, label=label, inputs=env.values,
                                           detail="real code raised: " + err.split("\n")[0], path_condition=pcs_desc))
             return True
